@@ -223,6 +223,18 @@ def prefer_double_quote(string: str) -> str:
     return string
 
 
+def get_localsplusnames(co) -> tuple:
+    """The 3.11+ merged "fast locals" table of a code object: locals, then cell
+    variables that are not also locals, then free variables. Note that since
+    3.12 (inlined comprehensions) a free variable can have the name of a local."""
+    varnames = tuple(co.co_varnames)
+    return (
+        varnames
+        + tuple(name for name in co.co_cellvars if name not in varnames)
+        + tuple(co.co_freevars)
+    )
+
+
 def get_logical_instruction_at_offset(
     bytecode,
     offset: int,
@@ -235,6 +247,7 @@ def get_logical_instruction_at_offset(
     line_offset=0,
     exception_entries=None,
     labels=None,
+    localsplusnames=None,
 ):
     """
     Return a single logical instruction for `bytecode` at offset `offset`.
@@ -315,10 +328,12 @@ def get_logical_instruction_at_offset(
 
             argval = arg
 
-            # create a localsplusnames table that resolves duplicates.
-            localsplusnames = (varnames or tuple()) + tuple(
-                name for name in (cells or tuple()) if name not in varnames
-            )
+            # create a localsplusnames table that resolves duplicates, unless
+            # the caller knows the code object and has passed the real one.
+            if localsplusnames is None:
+                localsplusnames = (varnames or tuple()) + tuple(
+                    name for name in (cells or tuple()) if name not in varnames
+                )
 
             if op in opc.CONST_OPS:
                 argval, argrepr = _get_const_info(arg, constants)
@@ -459,6 +474,7 @@ def get_instructions_bytes(
     linestarts=None,
     line_offset=0,
     exception_entries=None,
+    localsplusnames=None,
 ):
     """
     Iterate over the instructions in a bytecode string.
@@ -491,6 +507,7 @@ def get_instructions_bytes(
                 linestarts=linestarts,
                 line_offset=0,
                 exception_entries=exception_entries,
+                localsplusnames=localsplusnames,
             )
         )
 
@@ -523,6 +540,9 @@ class Bytecode:
                 pass
             pass
 
+        self._localsplusnames = (
+            get_localsplusnames(co) if opc.version_tuple >= (3, 11) else None
+        )
         self._linestarts = dict(opc.findlinestarts(co, dup_lines=dup_lines))
         self._original_object = x
         self.opc = opc
@@ -546,6 +566,7 @@ class Bytecode:
             self._linestarts,
             line_offset=self._line_offset,
             exception_entries=self.exception_entries,
+            localsplusnames=self._localsplusnames,
         )
 
     def __repr__(self):
@@ -605,6 +626,7 @@ class Bytecode:
             show_source=show_source,
             first_line_number=first_line_number,
             exception_entries=self.exception_entries,
+            localsplusnames=self._localsplusnames,
         )
         return output.getvalue()
 
@@ -636,6 +658,7 @@ class Bytecode:
         show_source=True,
         first_line_number: Optional[int] = None,
         exception_entries=None,
+        localsplusnames=None,
     ) -> list:
         # Omit the line number column entirely if we have no line number info
         show_lineno = line_starts is not None or self.opc.version_tuple < (2, 3)
@@ -682,6 +705,7 @@ class Bytecode:
             line_starts,
             line_offset=line_offset,
             exception_entries=exception_entries,
+            localsplusnames=localsplusnames,
         ):
             # Python 1.x into early 2.0 uses SET_LINENO
             if last_was_set_lineno:
@@ -829,6 +853,9 @@ class Bytecode:
             cell_names,
             line_starts,
             line_offset,
+            localsplusnames=(
+                get_localsplusnames(co) if self.opc.version_tuple >= (3, 11) else None
+            ),
         )
 
 
